@@ -455,6 +455,22 @@ def value_pipeline(spec, lib):
     elif rt_equal is not None and isinstance(o[1], bool) and o[1] != rt_equal:
         problems.append(('deep-equal/engine-%s-model-%s' % (str(o[1]).lower(), 'equal' if rt_equal else 'differs'),
                          None, {'text': short(text)}))
+    # the property as stated: the very same XDM value (bound to a variable) is serialised, parsed back and
+    # compared with itself; serialize() must not modify it on the way
+    from ..engine import describe
+    v = xp(root, '(%s)' % expr, variables=variables)
+    if v[0] == 'ok':
+        vs = dict(variables, v=v[1])
+        before = describe(v[1])
+        o = xp(root, 'deep-equal(parse-json(serialize($v, %s)), $v)' % J, variables=vs)
+        after = describe(v[1])
+        if before != after:
+            problems.append(('serialize/operand-modified', None,
+                             {'before': short(before), 'after': short(after)}))
+        elif o[0] == 'ok' and isinstance(o[1], bool) and rt_equal is True and o[1] is False \
+                and not any(p[0].startswith('deep-equal/') for p in problems):
+            problems.append(('deep-equal/same-value-bound-to-variable/engine-false-model-equal', None,
+                             {'text': short(text)}))
     return problems, (text, sorted(notes))
 
 
